@@ -66,6 +66,11 @@ fn small_scope_accepted_implies_grammatical() -> Result<(), String> {
         if re != input { return Err(format!("parse({input:?}): components re-concatenate to {re:?}")); }
         if !path_ok(p) || !q.map_or(true, query_ok) || !f.map_or(true, query_ok) { return Err(format!("parse({input:?}) accepted with path {p:?} query {q:?} fragment {f:?}")); }
         if !grammatical(identity_did::DID::method_id(u.did()), |c| c.is_ascii_alphanumeric() || matches!(c, '.' | '-' | '_' | ':')) { return Err(format!("parse({input:?}) accepted with method id {:?}", identity_did::DID::method_id(u.did()))); }
+        // every accessor / conversion of an accepted value is total (C05): From<DIDUrl> for Url carries an `expect`
+        let u2 = u.clone();
+        if catch_unwind(move || { let _ = identity_core::common::Url::from(u2.clone()); let _ = String::from(u2.clone()); let _ = u2.query_pairs().count(); let _ = format!("{u2:?}"); }).is_err() {
+          return Err(format!("an accessor / conversion PANICS on the accepted value {input:?}"));
+        }
       }
     }
     // setters on a fixed base value
